@@ -1,4 +1,5 @@
 """C13 - Any query gets a well-formed reply or none; the server never panics."""
+import os
 from props.corecase import file_to_coq, shrink_file, BACKENDS, response_class
 
 ID = "C13"
@@ -41,6 +42,12 @@ def case_class(c):
 
 
 def shrink_candidates(c):
+    if os.environ.get("VERIF_NO_SHRINK"):
+        return iter(())
+    return _shrink_candidates(c)
+
+
+def _shrink_candidates(c):
     return shrink_file(c)
 
 
